@@ -203,6 +203,23 @@ CLAIMED = {
         note="With caching off the property claims nothing about fetch counts; the model leaves open whether two spellings of "
              "one URL share a cache entry, and the replay accepts any behaviour the model allows.",
         design="5 C15"),
+    "C16": dict(
+        technique="TLA+ Registry state machine (type checkers, classes, validator objects, format checkers and registries as values; "
+                  "derivation operations as actions) model-checked by TLC (MC_C16: action property Undisturbed, invariant "
+                  "ExtendIdentity); every operation history exported and replayed on real objects with all live objects "
+                  "probed after every step",
+        text="Objects are values in the specification, so aliasing cannot exist there; TLC enumerates every sequence of "
+             "derivation operations whose operands range over all objects created so far, checks that no operation changes "
+             "the behaviour table of an existing object (except the one format checker an in-place registration names, and "
+             "the class-wide registry for cls_checks, which affects only checkers created afterwards), and exports the "
+             "histories with the behaviour tables. The replay performs each history on real TypeChecker / validator class / "
+             "validator / FormatChecker objects and after EVERY step probes EVERY live object: is_type tables incl. an "
+             "undefined name, verdicts through the type keyword, overridden and added keywords, which of id / $id "
+             "establishes the base URI, format functions by name -- an earlier object disturbed by a later operation is "
+             "exactly what the comparison with the model exposes.",
+        note="Predicate, keyword and format functions are generated from the model's ids. Global registries are snapshotted "
+             "and restored around every history.",
+        design="5 C16"),
     "C17": dict(
         technique="TLA+ ErrorTree module (incremental AddTo vs declarative KwsAt / ChildKeys / Total); TLC refinement check over all "
                   "arrival sequences (MC_C17: Refines, Findable, OrderFree); synthetic replays and real error collections "
